@@ -143,6 +143,20 @@ def r01_1(ctx, counts: dict[str, int]) -> RuleResult:
             res.fail(finding('R01.1', m, m.node, 'no focus written',
                              'select_with_focus no longer sets an inner focus'))
         n_swf += 1
+    # select_with_focus functions bound to a token class through the registration DSL
+    bound = set()
+    for rec in ctx.reg.all_records():
+        ref = rec.method('select_with_focus')
+        if ref is not None and ref.func is not None and ref.origin != 'class':
+            bound.add(ref.func)
+    for m in sorted(bound, key=lambda q: q.key):
+        params = m.params()
+        if len(params) < 2:
+            raise AnalysisError(f'{m.key}: unexpected signature')
+        if not focus_frame(m, params[1], res):
+            res.fail(finding('R01.1', m, m.node, 'no focus written',
+                             'select_with_focus no longer sets an inner focus'))
+        n_swf += 1
     counts['context_iterators'] = n_iter
     counts['select_with_focus'] = n_swf
     return res
@@ -502,10 +516,291 @@ def r01_3(ctx, counts: dict[str, int]) -> RuleResult:
     counts['dedup_obligations'] = n
     return res
 
+CONTEXT_ITERATORS = ('select_with_focus', 'iter_descendants', 'iter_children_or_self',
+                     'iter_self', 'iter_parent', 'iter_ancestors', 'iter_siblings',
+                     'iter_preceding', 'iter_followings', 'iter_attributes')
+
+
+def r01_4(ctx, counts: dict[str, int]) -> RuleResult:
+    """Document order of the merged results of a step."""
+    from ..engine.dataflow import branch_facts
+    from .common import enclosing_map
+    reg: RegModel = ctx.reg
+    res = RuleResult(
+        'R01.4', 'STEP-MERGE-ORDER',
+        'E1/E2 evaluates E2 once per node of E1 and returns the union of the results in document '
+        'order. The results of one evaluation are in document order, their concatenation is '
+        'not (in //*/* the children of an element come after the children of its parent, '
+        'although they precede its following siblings). In the select functions bound to "/" '
+        'and "//": a value yielded inside a loop over the context nodes of the left operand '
+        '(a `for` over select_with_focus(…) or a context.iter_*() iterator) is established to '
+        'be atomic (branch fact `not isinstance(x, XPathNode)`); node results leave the '
+        'function only through `sorted(…, key=node_position)` after the loop. A fast path that '
+        'yields nodes in step order needs an order-preservation argument for the step and is '
+        'listed in sa/allow.json.')
+    funcs: dict[FuncInfo, set[str]] = {}
+    for rec in reg.all_records():
+        if rec.symbol in ('/', '//'):
+            ref = rec.method('select')
+            if ref is not None and ref.func is not None and ref.origin != 'class':
+                funcs.setdefault(ref.func, set()).add(rec.symbol)
+    if len(funcs) < 2:
+        raise AnalysisError(f'select functions of "/" and "//" located: {len(funcs)} < 2')
+    n_loops = n_yields = 0
+    for f, syms in sorted(funcs.items(), key=lambda kv: kv[0].key):
+        cfg = CFG(f.node)
+        facts = branch_facts(cfg)
+        emap = enclosing_map(f.node)
+
+        def context_loop(st: ast.AST) -> bool:
+            return isinstance(st, ast.For) and any(
+                isinstance(c, ast.Call) and isinstance(c.func, ast.Attribute)
+                and c.func.attr in CONTEXT_ITERATORS for c in ast.walk(st.iter))
+        loops = [st for st in ast.walk(f.node) if context_loop(st)]
+        n_loops += len(loops)
+        sorted_exits = 0
+        for nd in cfg.nodes:
+            if nd.kind != 'stmt' or not isinstance(nd.ast, ast.Expr) \
+                    or not isinstance(nd.ast.value, (ast.Yield, ast.YieldFrom)):
+                continue
+            y = nd.ast.value
+            v = y.value
+            inside = [enc for enc in emap[id(nd.ast)] if context_loop(enc)]
+            if not inside:
+                if isinstance(y, ast.YieldFrom) and v is not None and any(
+                        isinstance(c, ast.Call) and dotted(c.func) == 'sorted' and any(
+                            k.arg == 'key' and 'position' in stmt_text(k.value)
+                            for k in c.keywords) for c in ast.walk(v)):
+                    sorted_exits += 1
+                continue
+            n_yields += 1
+            atomic = isinstance(y, ast.Yield) and isinstance(v, ast.Name) and \
+                f'-isinstance({v.id}, XPathNode)' in facts[nd.id]
+            res.instances.append(f'{f.key} [{"/".join(sorted(syms))}]: `{stmt_text(nd.ast)}` '
+                                 f'inside the loop over the context nodes, atomic={atomic}')
+            if atomic:
+                res.ok()
+            else:
+                res.fail(finding('R01.4', f, nd.ast, f'{stmt_text(nd.ast)[:40]} in step order',
+                                 f'`{stmt_text(nd.ast)[:50]}` yields a node inside the loop over '
+                                 f'the context nodes of the left operand: the results of '
+                                 f'successive context nodes are concatenated, not merged in '
+                                 f'document order (with <a><b><c/></b><d/></a>, //*/* gives '
+                                 f'b, d, c)'))
+        if loops:
+            res.instances.append(f'{f.key}: {len(loops)} loop(s) over context nodes, '
+                                 f'{sorted_exits} sorted exit(s)')
+            if sorted_exits:
+                res.ok()
+            else:
+                res.fail(finding('R01.4', f, loops[0], 'no sorted exit',
+                                 f'the select of {"/".join(sorted(syms))} loops over the context '
+                                 f'nodes but never yields through sorted(…, key=node_position)'))
+    counts['context_loops'] = n_loops
+    counts['in_loop_yields'] = n_yields
+    if n_loops < 3:
+        raise AnalysisError(f'only {n_loops} loops over context nodes located in the path operators')
+    return res
+
+
+def r01_5(ctx, counts: dict[str, int]) -> RuleResult:
+    """Chained predicates of a reverse axis step count positions in reverse document order."""
+    reg: RegModel = ctx.reg
+    model = ctx.model
+    res = RuleResult(
+        'R01.5', 'PREDICATE-AXIS-DIRECTION',
+        'All predicates of a step filter with respect to the axis of the step (XPath 1.0 §2.4): '
+        'in ancestor::*[@x][1] the second predicate still counts from the nearest ancestor. A '
+        'predicate evaluates its left operand through select_with_focus; when the left operand '
+        'is itself a predicate, the numbering comes from the select_with_focus of the token '
+        'bound to "[". That method must depend on the direction of the step: it reads '
+        '`reverse_axis` and has a statement list that numbers the materialised results n..1 '
+        '(the same idiom check as XPathAxis.select_with_focus in R01.2). The inherited '
+        'XPathToken.select_with_focus numbers 1..n for every operand.')
+    n = 0
+    for pname, table in sorted(reg.tables.items()):
+        rec = table.get('[')
+        if rec is None:
+            raise AnalysisError(f'{pname}: no token registered for "["')
+        ref = rec.method('select_with_focus')
+        f = ref.func if ref is not None else None
+        n += 1
+        if f is None:
+            raise AnalysisError(f'{pname}: select_with_focus of "[" not resolved')
+        reads_dir = any(isinstance(x, ast.Attribute) and x.attr == 'reverse_axis'
+                        for x in walk_local(f.node))
+        recv = f.params()[1] if len(f.params()) > 1 else 'context'
+        lists = [f.node.body]
+        for st in walk_local(f.node):
+            if isinstance(st, ast.If):
+                lists += [st.body, st.orelse]
+        desc = [numbering(f, ls, recv) for ls in lists if ls]
+        has_desc = any(d == 'desc' and sz == 'ok' for d, sz, _ in desc)
+        res.instances.append(f'{pname} "[": select_with_focus -> {f.key} reads reverse_axis='
+                             f'{reads_dir} reverse numbering={has_desc}')
+        if reads_dir and has_desc:
+            res.ok()
+        else:
+            res.fail(finding('R01.5', f, f.node, f'{pname} predicate focus ignores the axis',
+                             f'the focus of a predicate applied to a predicate comes from '
+                             f'{f.key}, which numbers the items 1..n whatever the axis of the '
+                             f'step: with <a><b><c><d/></c></b></a>, //d/ancestor::*[true()][1] '
+                             f'selects a instead of c (libxml2: c)'))
+    counts['predicate_tokens'] = n
+    return res
+
+
+NON_CHILD_KINDS = {'AttributeNode', 'NamespaceNode'}
+ALL_KINDS = {'ElementNode', 'TextNode', 'CommentNode', 'ProcessingInstructionNode',
+             'AttributeNode', 'NamespaceNode'}
+
+
+def _isinstance_classes(test: ast.AST, subject: str) -> Optional[set[str]]:
+    if isinstance(test, ast.Call) and dotted(test.func) == 'isinstance' and len(test.args) == 2 \
+            and stmt_text(test.args[0]) == subject:
+        c = test.args[1]
+        elts = c.elts if isinstance(c, ast.Tuple) else [c]
+        return {dotted(e).split('.')[-1] for e in elts}
+    return None
+
+
+def r01_6(ctx, counts: dict[str, int]) -> RuleResult:
+    """Axes from attribute / namespace / text / comment / PI context nodes."""
+    from ..engine.dataflow import branch_facts
+    model = ctx.model
+    res = RuleResult(
+        'R01.6', 'AXIS-CONTEXT-DOMAIN',
+        'Every axis is defined for every kind of context node. (a) DOMAIN: the outermost '
+        '`isinstance(self.item, …)` guard of a context iterator admits the node kinds of '
+        'sa/specs/axes.json context_domain: following, preceding, the sibling axes, parent and '
+        'ancestor are defined for any node (a guard naming only ElementNode makes '
+        'text()/following::* empty); only elements have attributes. (b) SENTINEL: a scan '
+        '`for x in <children or descendants>: if x is <item>: break/flag` finds its sentinel '
+        'only if the sentinel is a child-kind node: attribute and namespace nodes are not among '
+        'the children or descendants of their parent, so on every path to such a loop the '
+        'sentinel is either established not to be an AttributeNode/NamespaceNode (branch fact) '
+        'or was replaced by its parent under that test. Otherwise @x/preceding-sibling::* '
+        'returns every child and @x/preceding::* every node of the document.')
+    with open(SPEC) as fp:
+        dom = {k: v for k, v in json.load(fp)['context_domain'].items() if not k.startswith('_')}
+    xc = model.find_class('XPathContext')
+    n_dom = n_scan = 0
+    for name, want in sorted(dom.items()):
+        m = xc.methods.get(name)
+        if m is None:
+            raise AnalysisError(f'XPathContext.{name} vanished')
+        # (a) domain: isinstance guards on self.item at the top level of the body
+        guards: list[tuple[ast.If, set[str]]] = []
+
+        def top_ifs(body: list[ast.stmt]) -> None:
+            for st in body:
+                if isinstance(st, ast.If):
+                    cs = _isinstance_classes(st.test, 'self.item')
+                    if cs is not None:
+                        guards.append((st, cs))
+                    top_ifs(st.orelse)
+        top_ifs(m.node.body)
+        if not guards:
+            raise AnalysisError(f'{m.key}: no isinstance(self.item, …) guard located')
+        n_dom += 1
+        admitted: set[str] = set()
+        for _, cs in guards:
+            admitted |= cs
+        res.instances.append(f'{m.key}: context kinds admitted {sorted(admitted)} (spec: {want})')
+        if want == 'any-node':
+            ok = 'XPathNode' in admitted or ALL_KINDS <= admitted
+            if ok:
+                res.ok()
+            else:
+                missing = sorted(ALL_KINDS - admitted)
+                res.fail(finding('R01.6', m, guards[0][0], f'{name} domain {sorted(admitted)}',
+                                 f'{name} yields nothing unless the context item is one of '
+                                 f'{sorted(admitted)}: the axis is empty for {missing} context '
+                                 f'nodes (e.g. /a/b/text()/following::* with a following '
+                                 f'sibling of b)'))
+        else:
+            extra = sorted(admitted - {'ElementNode'})
+            if not extra:
+                res.ok()
+            else:
+                st = [g for g, cs in guards if cs - {'ElementNode'}][0]
+                res.fail(finding('R01.6', m, st, f'{name} admits {"+".join(extra)}',
+                                 f'{name} yields for a context item of kind {extra}: only '
+                                 f'element nodes have attributes (//@*/attribute::node() returns '
+                                 f'the attributes themselves)'))
+        # (b) sentinel scans
+        cfg = CFG(m.node)
+        facts = branch_facts(cfg)
+        for nd in cfg.nodes:
+            loop = nd.ast
+            if not isinstance(loop, ast.For):
+                continue
+            sent = None
+            for x in ast.walk(loop):
+                if isinstance(x, ast.Compare) and len(x.ops) == 1 and isinstance(x.ops[0], ast.Is) \
+                        and isinstance(x.comparators[0], ast.Name) \
+                        and stmt_text(x.left) == stmt_text(loop.target):
+                    sent = x.comparators[0].id
+            it = stmt_text(loop.iter)
+            if sent is None or not (it == f'{sent}.parent' or 'iter_descendants' in it
+                                    or it.endswith('.children')):
+                continue
+            n_scan += 1
+
+            def discharged(q: Node) -> bool:
+                for fa in facts[q.id]:
+                    if fa.startswith('-isinstance('):
+                        try:
+                            cs = _isinstance_classes(ast.parse(fa[1:], mode='eval').body, sent)
+                        except SyntaxError:
+                            cs = None
+                        if cs is not None and NON_CHILD_KINDS <= cs:
+                            return True
+                a = q.ast
+                if q.kind == 'stmt' and isinstance(a, ast.Assign) and len(a.targets) == 1 \
+                        and stmt_text(a.targets[0]) == sent \
+                        and stmt_text(a.value) == f'{sent}.parent':
+                    return any(fa.startswith('+isinstance(') and NON_CHILD_KINDS <= (
+                        _isinstance_classes(ast.parse(fa[1:], mode='eval').body, sent) or set())
+                        for fa in facts[q.id])
+                return False
+            def edge_ok(q: Node, label: str) -> bool:
+                # the false edge of `isinstance(<sentinel>, (AttributeNode, NamespaceNode))`
+                # establishes a child-kind sentinel: paths through it are discharged
+                if q.kind == 'test' and label == 'false' and q.ast is not None:
+                    cs = _isinstance_classes(q.ast, sent)
+                    if cs is not None and NON_CHILD_KINDS <= cs:
+                        return False
+                return True
+            path = cfg.path_avoiding([cfg.entry], lambda q: q is nd, discharged,
+                                     edge_ok=edge_ok)
+            res.instances.append(f'{m.key}: scan `for {stmt_text(loop.target)} in {it}` stops at '
+                                 f'`{sent}`: sentinel is a child-kind node on every path='
+                                 f'{path is None}')
+            if path is None:
+                res.ok()
+            else:
+                f_ = finding('R01.6', m, loop, f'scan for {sent} in {it[:30]}',
+                             f'the scan `for {stmt_text(loop.target)} in {it}` stops when it '
+                             f'meets `{sent}`, which can be an attribute or namespace node: it '
+                             f'is not among the scanned nodes, so the whole collection is '
+                             f'yielded (/a/@x/preceding-sibling::node() returns the children of '
+                             f'a, @x/preceding::node() the rest of the document)')
+                f_.path = [f'L{q.lineno}: {stmt_text(q.ast)[:60]}' for q in path
+                           if q.ast is not None][:8]
+                res.fail(f_)
+    counts['axis_domains'] = n_dom
+    counts['sentinel_scans'] = n_scan
+    if n_scan < 2:
+        raise AnalysisError(f'only {n_scan} sentinel scans located in the sibling/preceding '
+                            f'iterators')
+    return res
+
 
 def run(ctx) -> dict:
     counts: dict[str, int] = {}
-    results = [r01_1(ctx, counts), r01_2(ctx, counts), r01_3(ctx, counts)]
+    results = [r01_1(ctx, counts), r01_2(ctx, counts), r01_3(ctx, counts), r01_4(ctx, counts),
+               r01_5(ctx, counts), r01_6(ctx, counts)]
     # document order of '|' and of the leading '//' (accumulated results are yielded sorted)
     from .c02_trees import r02_3
     results.append(r02_3(ctx, counts))
